@@ -58,7 +58,7 @@ def main():
         out["checks"] = {}
         for c in checks:
             t0 = time.time()
-            cenv = dict(os.environ, PYTHONPATH="%s:%s" % (wt, VERIF), TAWAZI_REPO=wt, PYTHONHASHSEED="0", PYTHONDONTWRITEBYTECODE="1", VERIF_TIER=a.tier)
+            cenv = dict(os.environ, PYTHONPATH="%s:%s" % (wt, VERIF), TAWAZI_REPO=wt, PYTHONHASHSEED="0", PYTHONDONTWRITEBYTECODE="1", VERIF_TIER=a.tier, VERIF_BUILD_DIR=os.path.join(VERIF, "build", "seed_%d" % os.getpid()))
             rc, o = sh("%s -m harness.main %s --no-proof --tier %s" % (PY, c, a.tier), cwd=VERIF, env=cenv, timeout=3000)
             lines = [l for l in o.splitlines() if l.startswith("VIOLATION") or l.startswith("  ") or l.startswith("OK") or l.startswith("KNOWN")]
             out["checks"][c] = dict(rc=rc, wall=round(time.time() - t0, 1), lines=lines[:12])
